@@ -63,7 +63,7 @@ fn result_event(scn: &Value) -> Value {
         Ok(b) => b,
         Err(e) => return json!({"ev": "KResult", "outcome": "build_error", "msg": e, "routes": [], "n_accept_all": -1, "first_len": 0}),
     };
-    let lg = Lg { b: &b, exact: true };
+    let lg = Lg { b: &b, exact: base_units(scn) };
     let mut query = json!({});
     if scn["k_src"].as_str().unwrap_or("cfg") == "query" {
         query["k"] = scn["k"].clone(); // the query overrides the configured k
@@ -94,6 +94,7 @@ fn setup_of(scn: &Value) -> Value {
     ev["h"] = json!(vec![0; nv]);
     ev["gc"] = json!(vec![0; nv]);
     ev["init_obs"] = scn["init"].clone();
+    ev["units"] = norm_units(scn);
     ev
 }
 
